@@ -793,11 +793,16 @@ class Planner(object):
         if mem is None:
             p.stmt = 'CLEAR'
         else:
-            # unspecified: growing the data segment again, sizes too small to hold the stack
-            if mem > m.mem or stack is None or mem < op.get('floor', 0) + stack:
+            # unspecified: growing the data segment again
+            if mem > m.mem or stack is None or mem < 1 or stack < 1:
                 p.skip = 'clear-size'
                 return
             p.stmt = 'CLEAR ,%d,%d' % (mem, stack)
+            if mem < op.get('floor', 0) + stack:
+                # sizes that may not hold the program and the stack: CLEAR may refuse them (Out of memory);
+                # the model does not know the exact limit. What it leaves must be a consistent session.
+                p.lenient = True
+                p.ctx.opt.add(7)
 
         def commit():
             if m.fns_ok:
@@ -1588,6 +1593,9 @@ class Exec(object):
             self.violate(self.prop, 'output-from-silent-statement:%s' % kind, '%r -> %r' % (plan.stmt, r))
         if err in c.errs or err in c.opt:
             run.probe('stmt-error-as-modelled')
+            if kind == 'clear':
+                self.after_failed_clear(plan, err)
+                return
             self.resync(plan, failed=True, err=err)
             return
         if err in (7, 14):
@@ -1808,15 +1816,53 @@ class Exec(object):
                              'FRE(0) = %d but at most %d bytes can be free (empty-state free %d - records %d - live %d); %s' % (
                                  v, fb[1], m.f0, m.records(), m.live()[0], self.history()))
 
+    def after_failed_clear(self, plan, err):
+        """
+        CLEAR refused its sizes. unspecified: whether the variables are gone by then; they are all kept
+        (and nothing else changed) or all cleared.
+        """
+        m = self.m
+        comp = Comp()
+        comp.states = [m.snapshot()]
+        comp.names = list(m.ar)
+        if self.matches(comp, 0):
+            self.run.probe('clear-refused:variables-kept')
+            return
+        scalars = list(m.sc)
+        m.reset()
+        comp.states = [m.snapshot()]
+        if self.matches(comp, 0) and all(self.d.get(b(n)) == (b'' if is_str(n) else 0) for n in scalars):
+            self.run.probe('clear-refused:variables-cleared')
+            # what else went with them is not modelled: calibrate again
+            m.f0 = None
+            m.fns_ok = False
+            m.field_ok = False
+            self.after_clear(plan)
+            return
+        self.violate(self.prop, 'clear-refused:variables-neither-kept-nor-cleared',
+                     '%r -> error %d; some variables read back changed, others not; %s' % (plan.stmt, err, self.history()))
+        self.stop = True
+
     def after_clear(self, plan):
         """Calibrate / check the empty-state free space after CLEAR."""
         m = self.m
         v = self.ev('FRE("")')
         if v is None:
-            self.run.probe('abandon:clear-left-no-memory')
+            # the empty string argument itself needs a byte free: legitimate with nothing left at all.
+            # FRE(0) allocates nothing
+            v0 = self.ev('FRE(0)')
+            if v0 is not None and int(v0) != 0:
+                self.violate('C10', 'fre-negative-after-clear' if int(v0) < 0 else 'fre-error-after-clear',
+                             'after %r FRE("") fails and FRE(0) = %d; %s' % (plan.stmt, int(v0), self.history()))
+            else:
+                self.run.probe('abandon:clear-left-no-memory')
             self.stop = True
             return
         v = int(v)
+        if v < 0:
+            self.violate('C10', 'fre-negative-after-clear', 'after %r FRE("") = %d; %s' % (plan.stmt, v, self.history()))
+            self.stop = True
+            return
         if m.f0 is None:
             m.f0 = v
         elif v != m.f0:
@@ -2539,6 +2585,9 @@ class Gen(object):
                             p.commit()
                 continue
             p = pl.plan(op)
+            if op['op'] == 'clear' and p.lenient:
+                # sizes that do not fit: assume they are refused
+                continue
             if not p.skip and not p.ctx.errs and p.commit is not None:
                 p.commit()
         return {'machine': NAME, 'prop': prop, 'cfg': cfg, 'ops': ops}
@@ -2844,6 +2893,9 @@ class Gen(object):
             if lo >= m.mem:
                 return {'op': 'clear', 'mem': None, 'stack': None}
             mem = rng.choice([m.mem, rng.randint(lo, m.mem), min(m.mem, lo + int(100 * 50.0 ** rng.random()))])
+            if rng.random() < 0.08:
+                # sizes that cannot hold the program and the stack
+                mem = rng.choice([2, 25, 1000, floor, floor + stack - 1, rng.randint(1, floor + stack - 1)])
             return {'op': 'clear', 'mem': mem, 'stack': stack, 'floor': floor}
         if kind == 'field':
             if not m.reclen:
